@@ -156,11 +156,13 @@ for Atomic<'a, ItemType, BUFFER_SIZE, MAX_STREAMS> {
                              Fut: Future<Output=&'a mut ItemType>>
                             (&'a self,
                              setter: F) -> keen_retry::RetryConsumerResult<(), F, ()> {
-        if let Some((slot, slot_id, len_before)) = self.channel.leak_slot_internal(|| false) {
+        if let Some((slot, slot_id, _len_before)) = self.channel.leak_slot_internal(|| false) {
             setter(slot).await;
             self.channel.publish_leaked_internal(slot_id);
-            if len_before < MAX_STREAMS as u32 {
-                self.streams_manager.wake_stream(len_before);
+            // the length observed at reservation time is out of date by now: the consumers may have taken everything & parked meanwhile
+            let len_after = self.channel.len_after_publishing(slot_id);
+            if len_after <= MAX_STREAMS as u32 {
+                self.streams_manager.wake_stream(len_after - 1);
             }
             keen_retry::RetryResult::Ok { reported_input: (), output: () }
         } else {
